@@ -151,6 +151,15 @@ def replay_init_params(vals, oid):
             got = {k_: getattr(conv, k_, None) for k_ in want}
             if got != want or not np.array_equal(conv.taper, np.r_[0, scipy.signal.windows.cosine((N.TAPER - 1) * 2), 0]) or want["samples_window"] % N.RATIO:
                 bad.append({"recording_samples": n, "sampling_rate": rate or 30000, "arguments": kw, "expected": want, "got": {k_: (int(v) if isinstance(v, (int, np.integer)) else repr(v)) for k_, v in got.items()}})
+            # the same object asked again without arguments after a call with other settings
+            try:
+                conv.init_params(nsamples=max(1, n // 3), nwindow=1200, extra="_preview", nshank=[0])
+                conv.init_params()
+                got2 = dict(nsamples=conv.nsamples, samples_window=conv.samples_window, extra=conv.extra, nshank=conv.nshank)
+                if got2 != dict(nsamples=n, samples_window=60000, extra="", nshank=None):
+                    bad.append({"recording_samples": n, "calls": "init_params(nsamples=%d, nwindow=1200, extra='_preview', nshank=[0]); init_params()" % max(1, n // 3), "got": {k_: repr(v) for k_, v in got2.items()}})
+            except AssertionError:
+                pass
             conv.sr.close()
         finally:
             shutil.rmtree(d, ignore_errors=True)
@@ -161,11 +170,12 @@ def replay_init_params(vals, oid):
          clause="every sample: by default the whole recording is processed, with the window / overlap / taper / decimation parameters the window harnesses are proved for")
 def h_init_params(H):
     import scipy.signal
-    for how in ("default", "given"):
-        S = H.session(f"init_params.{how}")
+    for how0 in ("default", "given", "default_again"):
+        S = H.session(f"init_params.{how0}")
         S.assert_mode = "branch"       # the asserts of init_params are argument checks: a refused call is one of its outcomes
 
-        def body(it, how=how):
+        def body(it, how0=how0):
+            how = "default" if how0 == "default_again" else how0
             ns, napch = z3.Ints("ns napch")
             it.ctx.assume(z3.And(ns >= 1, napch >= 1))
             rate = z3.Real("imSampRate")          # the calibrated rate of the probe: close to, never exactly, the nominal 30 kHz
@@ -174,6 +184,13 @@ def h_init_params(H):
             sr = SObj(spikeglx.Reader, meta=meta, ns=SV(ns))
             conv = SObj(neuropixel.NP2Converter, sr=sr, np_version="NP2.4")
             H.input(imSampRate=rate)
+            if how0 == "default_again":
+                # the same object after an earlier call with other settings (a preview of the first samples, say): a call without arguments means the documented defaults again
+                pn, pw = z3.Ints("nsamples_of_the_earlier_call nwindow_of_the_earlier_call")
+                it.ctx.assume(z3.And(pn >= 1, pw >= 1, pw % N.RATIO == 0))
+                H.input(nsamples_of_the_earlier_call=pn, nwindow_of_the_earlier_call=pw)
+                conv.attrs.update(dict(fs_ap=30000, fs_lf=2500, ratio=N.RATIO, nsamples=SV(pn), samples_window=SV(pw), samples_overlap=N.OVERLAP, samples_taper=N.TAPER,
+                                       napch=SV(napch), idxsyncch=SV(napch), extra="_preview", nshank=[0], check_completed=True))
             kw = {}
             if how == "given":
                 n_arg, w_arg = z3.Ints("nsamples_arg nwindow_arg")
@@ -190,6 +207,10 @@ def h_init_params(H):
             at = conv.attrs
             g = lambda k_: term(at[k_]) if isinstance(at.get(k_), SV) else at.get(k_)       # noqa
             eq = lambda k_, v: (g(k_) == v) if isinstance(g(k_), z3.ExprRef) or isinstance(v, z3.ExprRef) else z3.BoolVal(isinstance(g(k_), (int, float, np.integer, np.floating)) and g(k_) == v)      # noqa
+            how = how0
+            if how0 == "default_again":
+                it.ctx.oblige("init_params.default_again.folder_suffix_and_shanks", z3.BoolVal(at.get("extra") == "" and at.get("nshank") is None and at.get("check_completed") is False), "post",
+                              "no folder suffix, every shank, nothing verified yet: the settings of an earlier call do not survive a call that does not repeat them", assume=False)
             it.ctx.oblige(f"init_params.{how}.samples_to_process", eq("nsamples", n_arg if how == "given" else ns), "post",
                           "the number of samples to process is the caller's, by default all the samples of the recording (nothing rounded away)", assume=False)
             it.ctx.oblige(f"init_params.{how}.window", eq("samples_window", w_arg if how == "given" else z3.IntVal(60000)), "post", "window length: the caller's (accepted only if a multiple of 12), 2 s by default", assume=False)
@@ -282,6 +303,92 @@ def h_recon(H):
                           "every column of the original frame is restored from the shank that holds it (arbitrary row r0, column c0)")
         wg = env.vars["wg"]
         it.ctx.oblige("recon.windows_do_not_overlap", term(wg.overlap) == 0, "post", "windows of the reconstruction tile the file (overlap 0), so blocks are appended once each")
+    S.explore(body)
+
+
+def replay_recon_whole(vals, oid):
+    """native: a reassembled binary of an earlier recording is still in the target folder (same length, other samples) when the shank folders hold a new split"""
+    bad = []
+    d = tempfile.mkdtemp(prefix="c03_")
+    try:
+        from pathlib import Path
+        outs = []
+        for k_, seed in enumerate((11, 12)):
+            sub = os.path.join(d, f"run{k_}")
+            os.makedirs(sub)
+            ap, data = _mk_np24(sub, 0.5, 8192, ns=3000, rng=np.random.default_rng(seed))
+            conv = neuropixel.NP2Converter(ap, post_check=False, compress=False)
+            conv.init_params(nwindow=1200)
+            conv.process()
+            conv.sr.close()
+            outs.append((Path(ap).parent, data))
+        # both splits are reassembled into the same folder, one after the other: the second result must be the second recording
+        target = Path(d) / "target"
+        for k_, (pdir, data) in enumerate(outs):
+            for sh in "abcd":
+                dst = target / f"{pdir.name}{sh}"
+                if dst.exists():
+                    shutil.rmtree(dst)
+                shutil.copytree(pdir.parent / f"{pdir.name}{sh}", dst)
+            rec = neuropixel.NP2Reconstructor(target, pname=pdir.name, compress=False)
+            rec.process()
+            got = np.fromfile(next((target / pdir.name).glob("*.ap.bin")), dtype=np.int16)
+            if got.size != data.size or not np.array_equal(got, data.ravel()):
+                bad.append({"reassembly_number": k_ + 1, "into_a_folder_holding_an_earlier_result": k_ > 0, "equal_to_its_own_original": False})
+            meta = next((target / pdir.name).glob("*.ap.meta"), None)
+            if meta is not None and k_ == 0:
+                pass
+    finally:
+        shutil.rmtree(d, ignore_errors=True)
+    return {"failed": bool(bad), "cases": bad}
+
+
+@harness(PROPERTY, "reconstruct_whole", functions=["neuropixel:NP2Reconstructor._reconstruct"], replay=replay_recon_whole,
+         clause="reassembling the per-shank files reproduces the original binary byte for byte: whatever the target folder already holds, the output is started empty, written window by window over "
+                "all the samples of the shank files (windows without overlap) and closed; the shank readers are closed")
+def h_recon_whole(H):
+    # the window loop carries nothing to the statements after it (its locals are scratch): an empty sidecar contract
+    S = H.session("recon.whole", loops={("NP2Reconstructor._reconstruct", 0): I.LoopSpec()})
+
+    def body(it):
+        fs_ = fsmodel.GhostFS()
+        it.session.ghost_fs = fs_
+        it.session.ghost_files = {}
+        ns, nch, old_size = z3.Ints("ns nch size_of_the_file_already_there")
+        it.ctx.assume(z3.And(ns >= 1, nch >= 2, old_size >= 0))
+        H.input(ns=ns, nch=nch, size_of_the_file_already_there=old_size)
+        save = fsmodel.GhostPath(fs_, ("probe00",), "rec.imec0.ap.bin")
+        there = z3.Bool("a_file_is_already_there")
+        fs_.exists[save.key] = SV(there)
+        fs_.size[save.key] = SV(old_size)
+        shank_info, closed, asked = {}, [], []
+        for s_ in range(2):
+            m = z3.Int(f"nchn{s_}")
+            it.ctx.assume(z3.And(m >= 2, m <= nch))
+            ch = A.fresh_array(f"chns{s_}", "int64", (m,), ranged=False)
+            A.assume_range(ch, 0, nch - 1)
+            k, k2 = z3.Int(fresh_name("k")), z3.Int(fresh_name("k"))
+            it.ctx.assume(z3.ForAll([k, k2], z3.Implies(z3.And(k >= 0, k < k2, k2 < m), ch.uf(k) < ch.uf(k2)), patterns=[z3.MultiPattern(ch.uf(k), ch.uf(k2))]))
+            sr = SObj(spikeglx.Reader, _raw=A.fresh_array(f"shank_file{s_}", "int16", (ns, m)), tag=s_)
+            shank_info[f"shank{s_}"] = {"chns": ch, "sr": sr}
+        rec = SObj(neuropixel.NP2Reconstructor, shank_info=shank_info, nch=SV(nch), nsamples=SV(ns), samples_window=60000, save_file=save)
+
+        def firstlast(it_, a, k):
+            asked.append(a[0])
+            return N.firstlast_summary_with_nwin(it_, a, k)
+        it.session.contracts[C17.FIRSTLAST] = firstlast
+        it.session.contracts[spikeglx.Reader.close] = lambda it_, a, k: closed.append(a[0].attrs.get("tag"))
+        run_function(it, neuropixel.NP2Reconstructor._reconstruct, [rec], {})
+        # here: a path that reached the end of the function (the paths through one iteration of the window loop end after the loop body)
+        files = (getattr(it.session, "ghost_files", None) or {}).get(save.key, [])
+        it.ctx.oblige("recon.whole.output_started_empty", z3.BoolVal(any(op[0] == "open_w" and op[1] == save.key for op in fs_.log) and len(files) == 1), "post",
+                      "the binary is opened for writing (truncated) whatever is already in the target folder: a file left by an earlier reassembly, of any size, is never taken for the result")
+        it.ctx.oblige("recon.whole.output_closed", z3.BoolVal(len(files) == 1 and files[0].closed), "post")
+        ok = len(asked) == 1
+        wg = asked[0] if ok else None
+        it.ctx.oblige("recon.whole.windows_over_every_sample", z3.And(term(wg.attrs["ns"]) == ns, term(wg.attrs["overlap"]) == 0, term(wg.attrs["nswin"]) >= 1) if ok and isinstance(wg, SObj) else z3.BoolVal(False), "post",
+                      "one pass over windows that tile [0, nsamples) without overlap", assume=False)
+        it.ctx.oblige("recon.whole.readers_closed", z3.BoolVal(sorted(closed) == [0, 1] and all("sr" not in v for v in shank_info.values())), "post", assume=False)
     S.explore(body)
 
 
